@@ -278,6 +278,49 @@ def gene_on_chunk(strand):
     return fn
 
 
+def isoforms_on_chunk(strand):
+    """two CDSs of one locus (same outer coordinates, same second exon, first exons of different length) on the same chunk whose window cuts the 5' part
+    away, asked one after the other in either order: each one's chunk-relative codons are ITS OWN whole-chromosome codons inside the window (nothing is shared
+    between CDSs through a table keyed on spans)"""
+
+    def codons_inside(starts, lens, frames, w, Lc):
+        return [c for c in ref_codon_positions(starts, lens, strand, frames) if all(w <= p < w + Lc for p in c)]
+
+    def fn(a1, a2, f0, w, first):
+        a1, a2, f0, w, first = concretize(a1, a2, f0, w, first)
+        with untraced():
+            Lc = 24
+            s, t, e = 2, 16, 36  # outer start, second exon start, outer end: [s, s+a) + [t, e) on plus; mirrored on minus (short exon at the 5' end)
+            isos = []
+            for a in (a1, a2):
+                if strand is PLUS:
+                    starts, ends = [s, t], [s + a, e]
+                else:
+                    starts, ends = [s, e - a], [s + (e - t), e]
+                lens = [ends[0] - starts[0], ends[1] - starts[1]]
+                isos.append((starts, ends, lens, consistent_frames(lens, strand, f0)))
+            order = [0, 1] if first == 0 else [1, 0]
+            par = lambda: chunk_parent(w, Lc, seq=GEN[w: w + Lc])  # noqa: E731
+            for k in order + order:
+                starts, ends, lens, frames = isos[k]
+                cds = CDSInterval(starts, ends, strand, [CDSFrame(f) for f in frames], parent_or_seq_chunk_parent=par())
+                try:
+                    rel = cds.chunk_relative_codon_locations
+                except (BioCantorException, ValueError):
+                    rel = None
+                exp = codons_inside(starts, lens, frames, w, Lc)
+                if rel is None:
+                    if exp:
+                        return False
+                    continue
+                got = sorted(tuple(c.lift_over_to_first_ancestor_of_type(SequenceType.CHROMOSOME).relative_to_parent_pos(i) for i in range(3)) for c in rel)
+                if got != sorted(tuple(c) for c in exp):
+                    return False
+            return True
+
+    return fn
+
+
 def identifiers_fn(kind, strand):
     """computed identifiers (REAL digest): the same object built without parent, on the whole chromosome and on a chunk has ONE identifier"""
     from inscripta.biocantor.gene.feature import FeatureIntervalCollection
@@ -326,6 +369,14 @@ def obligations(tier):
                            desc="computed identifier (real MD5 digest) and dictionary form of a %s are the same whether it is built without parent, on the whole "
                                 "chromosome or on a sequence chunk (window start 0..4, object anywhere inside the window)" % kind,
                            bounds="window start 0..4 x object offset 0..9 on a 40-nt genome (realised)", examples=[dict(s0=3, w=0), dict(s0=5, w=2)]))
+    for strand in (PLUS, MINUS):
+        out.append(Obl("isoform_cds_on_chunk_%s" % sname(strand), isoforms_on_chunk(strand), dict(a1=int, a2=int, f0=int, w=int, first=int),
+                       lambda a1, a2, f0, w, first: 6 <= a1 and a1 <= 10 and 6 <= a2 and a2 <= 10 and 0 <= f0 and f0 <= 2 and 9 <= w and w <= 14 and 0 <= first and first <= 1,
+                       budget=600, cost=60, consts=dict(),
+                       desc="two CDS isoforms with the same outer coordinates but first exons of different length on one chunk (window cutting the 5' exon or the "
+                            "intron), evaluated alternately: each one's chunk-relative codons are its own model codons inside the window",
+                       bounds="first exon lengths 6..10 each, start frames 0..2, window start 9..14 (chunk length 24), either order (realised)",
+                       examples=[dict(a1=8, a2=10, f0=0, w=12, first=0), dict(a1=10, a2=7, f0=1, w=10, first=1)]))
     cds_shapes = [((5,), None), ((6,), None), ((7,), None), ((3, 3), None), ((4, 5), None), ((2, 4), None), ((4, 5), "shift")]
     if not quick:
         cds_shapes += [((3, 4), None), ((5, 2), None), ((1, 3), None), ((3, 3, 3), None), ((4, 2, 3), None), ((2, 2, 2), "shift")]
